@@ -17,6 +17,8 @@ def prove_lemmas(names, prop, tier):
     """Each lemma is decided in its own process (they are independent)."""
     if not names:
         return {}
+    groups = registry().lemma_groups
+    names = [s for nm in names for s in groups.get(nm, [nm])]
     import multiprocessing as mp
     with mp.get_context('fork').Pool(min(6, len(names))) as pool:
         parts = pool.map(_prove_some, [([nm], prop, tier) for nm in names], chunksize=1)
@@ -30,18 +32,21 @@ def _prove_some(args):
     names, prop, tier = args
     out = {}
     R = registry()
+    import os
+    logp = os.environ.get('PYVC_LEMMA_LOG')
     for nm in names:
         L = R.lemmas[nm]
+        if logp:
+            open(logp, 'a').write(f'{time.time():.0f} start {nm} pid={os.getpid()}\n')
         rec = dict(name=f'lemma:{nm}', function='(lemma over contracts)', kind='lemma', serves=list(L['serves']), instances=1,
                    model='', reason='')
         res = {}
-        for finite in (True, False):
-            if not finite and res.get(True, ('',))[0] == 'refuted':
-                res[False] = ('skipped', '', 0.0, False)
-                continue
+        full = 300000 if tier == 'quick' else 900000
+
+        def attempt(finite, budget):
             ctx = Ctx(finite, scope=dict(R.scope), enums=dict(R.enums))
             ctx.infinite_sorts = set(getattr(R, 'infinite_sorts', ()))
-            e = Exec(R, ctx, None, prop=None, timeout_ms=300000 if tier == 'quick' else 900000)
+            e = Exec(R, ctx, None, prop=None, timeout_ms=budget)
             e.reveal_all = True          # lemmas are about the spec functions themselves: their definitions are unfolded
             install_axioms(e)
             st = State()
@@ -59,7 +64,19 @@ def _prove_some(args):
             t0 = time.time()
             vac = not e.feasible(st)
             status, model = e.check_valid(st, e.eval_clause(st, L['goal'], binds))
-            res[finite] = (status, model, time.time() - t0, vac)
+            return (status, model, time.time() - t0, vac)
+
+        # 1. finite scope, short budget: a counter-model, if there is one, is usually found in well under a second
+        res[True] = attempt(True, 20000)
+        if res[True][0] == 'refuted' or res[True][3]:
+            res[False] = ('skipped', '', 0.0, False)
+        else:
+            # 2. the unbounded proof decides the lemma
+            res[False] = attempt(False, full)
+            if res[False][0] != 'discharged' and res[True][0] != 'discharged':
+                # 3. undecided so far: give the finite-scope refuter the full budget
+                again = attempt(True, full)
+                res[True] = (again[0], again[1], res[True][2] + again[2], again[3])
         f, u = res[True], res[False]
         if f[3]:
             rec.update(status='refuted', model='hypotheses of the lemma are unsatisfiable (vacuous lemma)')
@@ -72,4 +89,6 @@ def _prove_some(args):
             rec.update(status='open', reason=u[1] or f[1])
         rec.update(finite=f[0], unbounded=u[0], backend=f'z3-{z3.get_version_string()}/finite+unbounded', time_s=round(f[2] + u[2], 4))
         out[rec['name']] = rec
+        if logp:
+            open(logp, 'a').write(f'{time.time():.0f} end   {nm} {rec["status"]} finite={rec["finite"]} unbounded={rec["unbounded"]} {rec["time_s"]}s\n')
     return out
